@@ -151,6 +151,17 @@ class ExecMixin:
             if ok:
                 yield Outcome('normal', st1)
 
+    def vec_store(self, target_expr, vec, idx, v, st, node):
+        """component store into a Vec held by a variable / field (value semantics; sharing of the underlying
+        array with other holders is the business of the ownership analysis, not of this value-level model)"""
+        if not (-len(vec.items) <= idx < len(vec.items)):
+            self.safety(st, z3.BoolVal(False), 'index-store', node)
+            return
+        items = list(vec.items)
+        x, k = self.num(v, st, node)
+        items[idx] = SV(REAL, z3.ToReal(x) if k == 'int' else x)
+        yield from self.assign(target_expr if not isinstance(target_expr, ast.Name) else ast.Name(id=target_expr.id, ctx=ast.Store()), TupV(items, 'Vec'), st)
+
     def ex_AnnAssign(self, s, st):
         if s.value is None:
             yield Outcome('normal', st)
@@ -173,6 +184,11 @@ class ExecMixin:
             return
         if isinstance(tgt, ast.Attribute):
             for o, st1 in self.ev(tgt.value, st):
+                ol = self.lift(o)
+                if isinstance(ol, TupV) and ol.cls == 'Vec' and tgt.attr in ('x', 'y', 'z'):
+                    idx = 'xyz'.index(tgt.attr)
+                    yield from self.vec_store(tgt.value, ol, idx, v, st1, tgt)
+                    continue
                 yield from self.setattr(o, tgt.attr, v, st1, tgt)
             return
         if isinstance(tgt, ast.Subscript):
@@ -181,6 +197,12 @@ class ExecMixin:
                     raise OutOfSubset('slice assignment')
                 for i, st2 in self.ev(tgt.slice, st1):
                     o2 = self.deopt(self.lift(o), st2, tgt.value)
+                    if isinstance(o2, TupV) and o2.cls == 'Vec':
+                        iv = z3.simplify(self.num(i, st2, tgt)[0])
+                        if not z3.is_int_value(iv):
+                            raise OutOfSubset('symbolic index store into a Vec')
+                        yield from self.vec_store(tgt.value, o2, iv.as_long(), v, st2, tgt)
+                        continue
                     if isinstance(o2, Ref):
                         c = st2.store[o2.id]
                         if isinstance(c, ListC):
@@ -332,7 +354,22 @@ class ExecMixin:
                 yield from self.ex_block(s.orelse, stF)
 
     def ex_With(self, s, st):
-        raise OutOfSubset('with')
+        """only `with np.errstate(all=...)`: numpy's error configuration is saved and restored on every exit"""
+        if len(s.items) != 1 or s.items[0].optional_vars is not None:
+            raise OutOfSubset('with')
+        ce = s.items[0].context_expr
+        if not (isinstance(ce, ast.Call) and ast.unparse(ce.func) in ('np.errstate', 'numpy.errstate')):
+            raise OutOfSubset('with %s' % ast.unparse(ce)[:40])
+        saved = st.env.get('np_errstate')
+        kw = {k.arg: k.value for k in ce.keywords}
+        if 'all' in kw and isinstance(kw['all'], ast.Constant):
+            st.env['np_errstate'] = SV(STR, z3.StringVal(kw['all'].value))
+        else:
+            st.env['np_errstate'] = SV(STR, fresh_const('errstate', z3.StringSort()))
+        for o in self.ex_block(s.body, st):
+            if saved is not None:
+                o.st.env['np_errstate'] = saved
+            yield o
 
     def ex_Try(self, s, st):
         if s.finalbody or s.orelse:
